@@ -99,7 +99,7 @@ def repeated_groups(spec):
 
 
 JKEYS = ["id", "name", "items", "price", "active", "tags", "meta", "owner", "count", "notes", "address", "lines"]
-SCALARS = {"int": [0, 1, -5, 12345678901], "float": [1.5, -0.25, 1e-07], "bool": [True, False], "str": ["", "abc", "x y", "é"],
+SCALARS = {"int": [0, 1, -5, 12345678901], "float": [1.5, -0.25, 1e-07], "bool": [True, False], "str": ["", "abc", "x y", "é", "007", "+2", "1.", "1e3", "TRUE"],
            "date": ["2001-10-26"], "datetime": ["2001-10-26T21:32:52"]}
 
 
